@@ -191,8 +191,8 @@ theorem queue_dequeue_oldest (cap mm fl : Nat) (q : Q) (hq : Q.create cap mm fl 
   exact (Q.dequeue_spec s.q hg.inv buf).2.2.2
 
 /-- non-vacuity: capacity 2, DROP_OLDEST; the third enqueue drops message 1, the ring wraps -/
-def exQ : Q := { cap := 2, maxMsg := 16, flags := 1, slots := [⟨0, 0, 0⟩, ⟨0, 0, 0⟩] }
-example : Q.create 2 16 1 = some exQ := by decide
+def exQ : Q := { cap := 2, maxMsg := 16, flags := flagDropOldest, slots := [⟨0, 0, 0⟩, ⟨0, 0, 0⟩] }
+example : Q.create 2 16 flagDropOldest = some exQ := by decide
 example :
     (QSys.run { q := exQ } [.enq ⟨1, 1, 8⟩, .enq ⟨1, 2, 8⟩, .enq ⟨1, 3, 8⟩, .deq 16]).left
       = [.dropped ⟨1, 1, 8⟩, .dequeued ⟨1, 2, 8⟩] := by decide
